@@ -7,3 +7,7 @@ import DsdVerif.Props.C13Doc
 import DsdVerif.Props.C13Layout
 import DsdVerif.Props.C13Tabs
 import DsdVerif.Props.C13Sound
+import DsdVerif.Props.C13Gaps
+import DsdVerif.Props.C13GapsRx
+import DsdVerif.Props.C13GapsCplx
+import DsdVerif.Props.C13GapsKernel
